@@ -166,7 +166,7 @@ def random_doc(rng, size='small', text_profile='plain', flavours=CORE_FLAVOURS, 
     # enums
     for _ in range(rng.randint(0, big)):
         e = am.Enum(rng.choice(schemas), nm('e'), comment=maybe(0.3 if comments else 0, lambda: tx.comment()))
-        for _ in range(rng.randint(1, 4)):
+        for _ in range(rng.randint(1, 4 if big < 8 else 9)):
             e.items.append(am.EnumItem(nm('ei'), note=maybe(0.3, lambda: tx.note('ein', small_ml)),
                                        comment=maybe(0.25 if comments else 0, lambda: tx.comment())))
         doc.enums.append(e)
@@ -245,7 +245,7 @@ def random_doc(rng, size='small', text_profile='plain', flavours=CORE_FLAVOURS, 
     for ti, t in enumerate(doc.tables):
         for c in t.columns:
             if rng.random() < 0.2:
-                for _ in range(rng.choice([1, 1, 1, 2])):
+                for _ in range(rng.choice([1, 1, 1, 2, 3] if big >= 4 else [1, 1, 1, 2])):
                     for _try in range(10):
                         t2 = rng.randrange(len(doc.tables))
                         c2 = rng.choice(doc.tables[t2].columns).name
